@@ -12,6 +12,7 @@ from ..unpack import (
     is_multi_sec,
 )
 from ..config import (
+    Config,
     MasterConfig,
 )
 from ..tract import Tract
@@ -347,6 +348,16 @@ class PLSSParser:
             handed_down_config = ''
         if parse_qq:
             handed_down_config = f"{handed_down_config},parse_qq"
+        # The settings that exclusively affect the parsing of subordinate
+        # Tracts are locked in for this parse (they may have been passed
+        # as arguments to `PLSSDesc.parse()`), so hand those down too.
+        handed_down_config = Config(handed_down_config)
+        handed_down_config.clean_qq = clean_qq
+        handed_down_config.qq_depth_min = qq_depth_min
+        handed_down_config.qq_depth_max = qq_depth_max
+        handed_down_config.qq_depth = qq_depth
+        handed_down_config.break_halves = break_halves
+        handed_down_config = handed_down_config.decompile_to_text()
         self.handed_down_config = handed_down_config
 
         # These impact the parse of this PLSS description.
